@@ -346,7 +346,7 @@ func replayOffsetLife(r *rand.Rand, w *writer, h lifeHist) {
 	for _, op := range h.Ops {
 		if op.Op == "add" {
 			paths := clonePaths(lifePool[op.P-1])
-			jt, et := op.P%4, 0
+			jt, et := []int{3, 2, 3, 0, 1, 3}[op.P-1], 0 // JtOf of spec/Lifecycle.tla
 			if op.Open {
 				et = 2
 			}
@@ -357,7 +357,18 @@ func replayOffsetLife(r *rand.Rand, w *writer, h lifeHist) {
 				ArgsSame: equalPaths(paths, fromPaths64(p64))})
 			continue
 		}
-		delta := float64(op.Ct)*2.5 - 4 // -1.5, 1, 3.5, 6
+		// deltas per execution form: the same |delta| occurs with both signs and repeatedly
+		delta := 3.5
+		switch {
+		case op.Form == "closed" && op.Ct == 4:
+			delta = -3.5
+		case op.Form == "oc":
+			delta = -3.5
+		case op.Form == "tree" && op.Ct == 4:
+			delta = 6
+		case op.Form == "tree":
+			delta = -1.5
+		}
 		e := &OffEv{Ev: "OffExec", Chk: []string{"C12"}, Id: 1, Delta4: int(delta * 4), Ngroups: len(adds), Ok: true}
 		sol := clipper.Paths64{{{X: 7, Y: 7}, {X: 9, Y: 9}}}
 		e.Out = safeCall(func() { co.Execute64(delta, &sol) })
